@@ -1,7 +1,7 @@
 (* Concrete witnesses for C15 on the model instantiated with the JSON / base64 functions of
    RJson.v (the instantiation that the correspondence check compares with the implementation). *)
 Require Import V.Base.Prelude V.KflText.Macro V.KflText.MacroProofs V.KflText.RJv V.KflText.Redact V.KflText.RedactSpec
-  V.KflText.RJson V.KflText.RedactProofs V.KflText.RedactMulti.
+  V.KflText.RJson V.KflText.RedactProofs V.KflText.RedactMulti V.KflText.RedactArgs.
 Local Open Scope bool_scope.
 
 Definition by_ (l : list N) : bytes := bs l.
@@ -75,4 +75,59 @@ Proof.
   - exists [Child kd]. split; [right; right; left; reflexivity|]. econstructor; [reflexivity | constructor].
   - vm_compute. reflexivity.
   - vm_compute. reflexivity.
+Qed.
+
+(* several arguments with hops: redact("a[0].json().c", "a[0].json().d", "a[1]") on wit_record.
+   The second argument is evaluated on the record that the first one changed (the document in a[0]
+   was re-encoded); every argument satisfies the hypotheses of the several-arguments theorem *)
+Definition arg_c : list seg := ex_arg.
+Definition arg_d : list seg :=
+  [{| sjp := [Child ka; Nth 0]; sxml := None |}; {| sjp := [Child kd]; sxml := None |}].
+Definition arg_1 : list seg := [{| sjp := [Child ka; Nth 1]; sxml := None |}].
+Definition multi_args : list (list seg) := [arg_c; arg_d; arg_1].
+
+Lemma single_a0 q : SingleHops parse b64d [[Child ka; Nth 0]; q] wit_record.
+Proof.
+  constructor.
+  - intros L L' H H'. apply in_matches_iff in H, H'. vm_compute in H, H'.
+    destruct H as [<-|[]], H' as [<-|[]]. reflexivity.
+  - intros. constructor.
+Qed.
+
+Lemma multi_args_good : forall a, In a multi_args -> good_arg parse b64d wit_record a.
+Proof.
+  intros a [<-|[<-|[<-|[]]]]; (split; [discriminate|]); (split; [repeat constructor|]).
+  - apply single_a0.
+  - apply single_a0.
+  - constructor.
+Qed.
+
+Lemma example_several_arguments :
+  (forall a, In a multi_args -> good_arg parse b64d wit_record a)
+  /\ args_denote parse b64d multi_args wit_record [SKey ka; SIdx 0; SHop; SKey kc]
+  /\ args_denote parse b64d multi_args wit_record [SKey ka; SIdx 0; SHop; SKey kd]
+  /\ args_denote parse b64d multi_args wit_record [SKey ka; SIdx 1]
+  /\ exists r', redact_model parse render b64d b64e no_xml wit_record multi_args = r'
+       /\ sub parse b64d r' [SKey ka; SIdx 0; SHop; SKey kc] = Some MARK
+       /\ sub parse b64d r' [SKey ka; SIdx 0; SHop; SKey kd] = Some MARK
+       /\ sub parse b64d r' [SKey ka; SIdx 1] = Some MARK.
+Proof.
+  split; [exact multi_args_good|]. split; [|split; [|split]].
+  - exists arg_c. split; [left; reflexivity|].
+    change [SKey ka; SIdx 0; SHop; SKey kc] with ([SKey ka; SIdx 0] ++ SHop :: [SKey kc]).
+    eapply DA_hop.
+    + econstructor; [reflexivity|]. econstructor; [reflexivity | reflexivity | constructor].
+    + vm_compute. reflexivity.
+    + vm_compute. reflexivity.
+    + constructor. econstructor; [vm_compute; reflexivity | constructor].
+  - exists arg_d. split; [right; left; reflexivity|].
+    change [SKey ka; SIdx 0; SHop; SKey kd] with ([SKey ka; SIdx 0] ++ SHop :: [SKey kd]).
+    eapply DA_hop.
+    + econstructor; [reflexivity|]. econstructor; [reflexivity | reflexivity | constructor].
+    + vm_compute. reflexivity.
+    + vm_compute. reflexivity.
+    + constructor. econstructor; [vm_compute; reflexivity | constructor].
+  - exists arg_1. split; [right; right; left; reflexivity|]. constructor.
+    econstructor; [reflexivity|]. econstructor; [reflexivity | reflexivity | constructor].
+  - eexists. split; [reflexivity|]. vm_compute. repeat split; reflexivity.
 Qed.
